@@ -376,6 +376,9 @@ def oracle_c14(cases, impl, ctx):
 
 def oracle_c19(cases, impl, ctx):
     n, bad = oracle_same("order1", "order2", "the decision depends on the order of the options")(cases, impl, ctx)
+    n2, bad2 = oracle_same("spelling1", "spelling2", "two spellings of the same options (long names, '=', attached "
+                           "values, combined flags, another order) behave differently")(cases, impl, ctx)
+    n, bad = n + n2, bad + bad2
     for c in cases:
         r = impl.get(c.id)
         if r and r[0] == "1" and r[1] and ctx["model"].get(c.id, ("", b""))[1] == b"" and ctx["model"].get(c.id, ("",))[0] == "1":
@@ -472,11 +475,14 @@ reg("C18", gen=lambda rng, n, tier: F.c18(rng, n, maxlen=(4 if tier == "quick" e
          "model), longer random strings biased to well-formed pieces, and the rendering through the real binary",
     theorems=[], assumptions=["braces inside a fallback are outside the statement (Unspecified_C18)"])
 
-reg("C19", gen=lambda rng, n, tier: F.c19(rng, n, full=(tier == "thorough")), budget=(5000, 5000), absolute=True,
+reg("C19", gen=lambda rng, n, tier: F.c19(rng, n, full=(tier == "thorough")) + F.argv_spellings(rng, 3000 if tier == "quick" else 20000),
+    budget=(5000, 5000), absolute=True,
     oracle=oracle_c19, nontrivial=lambda c, m: True,
     rule="subsets of the option set {-f|-c|-b|-l, -d, -e, -g, -p, -s, -z, -m, -j, --no-join, --json, -r, -t, "
          "--fallback-oob, -M} with representative values (quick: random small subsets with value variants - "
-         "multi-byte/empty -d and -r, -M 0, bounds shapes; thorough: all 5*2^14 subsets), and reorderings",
+         "multi-byte/empty -d and -r, -M 0, bounds shapes; thorough: all 5*2^14 subsets), reorderings, and pairs "
+         "of spellings of one argument vector (long option names, '=' separator, attached short values, combined "
+         "short flags, another order) drawn from every mode's generator",
     theorems=[], assumptions=["-e in -b/-l mode and several mode options at once are outside the statement"])
 
 
